@@ -143,7 +143,11 @@ fn build_frozen(reps: &[Rep], ok: &[bool], globals: &Globals) -> Result<FrozenMo
 fn replay(universe: &str, out_path: &str, modes: &[String]) -> anyhow::Result<()> {
     let u: J = serde_json::from_str(&std::fs::read_to_string(universe)?)?;
     let mut out = util::NdWriter::create(out_path)?;
-    let globals = Globals::standard();
+    let globals = {
+        use starlark::environment::GlobalsBuilder;
+        use starlark::environment::LibraryExtension as L;
+        GlobalsBuilder::extended_by(&[L::StructType, L::SetType]).build()
+    };
     let mut reps: Vec<Rep> = Vec::new();
     for v in u["vals"].as_array().unwrap() {
         let i = v["i"].as_u64().unwrap() as usize;
